@@ -39,7 +39,7 @@ LEVEL_TEXT = (
 @st.composite
 def fluid_case(draw):
     oil = draw(gens.oil_params())
-    sal = draw(st.floats(0.5, 25.0))
+    sal = draw(st.one_of(st.floats(0.0, 25.0), st.sampled_from([0.0, 0, 25.0, 25, 3])))
     n = draw(st.integers(1, 8))
     return {
         "kind": "fluid",
@@ -52,7 +52,7 @@ def fluid_case(draw):
         "as_list": draw(st.booleans()),
         # the dataclass is mutable: after the first evaluation its fields are reassigned to these values
         "oil2": draw(st.one_of(st.none(), gens.oil_params())),
-        "salinity2": draw(st.floats(0.5, 25.0)),
+        "salinity2": draw(st.one_of(st.floats(0.0, 25.0), st.sampled_from([0.0, 0, 25]))),
         # "all Fluid parameter sets": also the nearly dead oils / dry-gas objects whose Standing bubble point is
         # below atmospheric or negative (Fluid(400, 35, 0.65, 0) is the object the repository's own tests build)
         # scalar pressures are handed to the methods as Python / numpy scalars of either kind or 0-d arrays
@@ -65,7 +65,7 @@ def fluid_case(draw):
 def table_case(draw, tier):
     comp = draw(gens.gas_composition())
     hi = 3000.0 if tier == "quick" else 14000.0
-    pmax = draw(st.one_of(st.integers(3, int(hi // 10)).map(lambda k: 10.0 * k), st.floats(25.0, hi), st.sampled_from([20.0, 30.0, 1000.0])))
+    pmax = draw(st.one_of(st.integers(3, int(hi // 10)).map(lambda k: 10.0 * k), st.floats(25.0, hi), st.sampled_from([10.5, 15.0, 20.0, 20.000001, 30.0, 1000.0])))
     return {"kind": "table", "comp": comp, "pmax": pmax, "container": draw(st.sampled_from(["dict", "series", "series-other-order", "dataframe-row", "dict-other-order", "dict-int-values"]))}
 
 
